@@ -15,6 +15,7 @@
 //!   Answer: 2·out as integers (RLE), `err:<class>` or `panic`.
 //! `bqerr bits= bb= nb= n= k= out= m= batch=`: argument checks of `BlockQuantizedMatrix::new` and
 //!   `batched_gemm_uninit` (`ok` or `err:<class>`), incl. K that is not a whole number of blocks.
+//! `bqscales bb= nb= n= sn= snb=`: scales tensor whose shape does not match the quantized data.
 //! `# tol …` lines (not compared with the model): random real-valued data, PROPFAIL only if the
 //!   result differs from dequantize + naive f64 by more than `1e-4·Σ|a_k·w_k| + 1e-6` (Float, gemm)
 //!   plus the LHS quantisation bound `1.01·Σ_k (absmax_block/254)·|w_k|` (Int8).
@@ -304,6 +305,44 @@ fn err_case(out: &mut Out, bits: u8, bb: usize, nb: usize, n: usize, k: usize, o
     out.case(&req, &ans, fail.as_deref(), true);
 }
 
+/// `bqscales bb= nb= n= sn= snb=`: quant of shape (n, nb, bb) with scales of shape (sn, snb).
+/// A safe API must reject inconsistent shapes or initialise every output: the output buffer is
+/// pre-filled with a sentinel and the answer reports how many sentinels survive.
+fn scales_case(out: &mut Out, bb: usize, nb: usize, n: usize, sn: usize, snb: usize) {
+    let req = format!("bqscales bb={bb} nb={nb} n={n} sn={sn} snb={snb}");
+    let res = hcommon::catch(|| -> String {
+        let qf = vec![0x99u8; n * nb * bb];
+        let sf = vec![1.0f32; sn * snb];
+        let qv = NdTensorView::from_data([n, nb, bb], qf.as_slice());
+        let sv = NdTensorView::from_data([sn, snb], sf.as_slice());
+        let mat = match BlockQuantizedMatrix::new(Contiguous::new(qv).unwrap(), Contiguous::new(sv).unwrap(), 4) {
+            Ok(m) => m,
+            Err(e) => return format!("err:{e:?}"),
+        };
+        let k = nb * bb * 2;
+        let lf = vec![1.0f32; k];
+        let l = NdTensorView::from_data([1, 1, k], lf.as_slice());
+        let mut o: Vec<MaybeUninit<f32>> = vec![MaybeUninit::new(-777.0); n];
+        match BlockQuantizedGemm::new().batched_gemm_uninit(&mut o, l, mat) {
+            Ok(_) => {
+                let stale = o.iter().filter(|x| unsafe { x.assume_init() } == -777.0).count();
+                format!("ok unwritten={stale}")
+            }
+            Err(e) => format!("err:{e:?}"),
+        }
+    });
+    let ans = res.unwrap_or_else(|_| "panic".into());
+    let mut fail = None;
+    if ans.starts_with("ok") && !ans.ends_with("unwritten=0") {
+        fail = Some(format!("batched_gemm_uninit returned Ok but left output elements unwritten ({ans}): uninitialised memory through a safe API"));
+    }
+    if ans == "panic" {
+        fail = Some("panic on inconsistent scales shape".to_string());
+    }
+    out.bucket(&format!("scales_{}", ans.split(' ').next().unwrap_or("").replace(':', "_")));
+    out.case(&req, &ans, fail.as_deref(), true);
+}
+
 fn tol_case(out: &mut Out, rng: &mut Rng) {
     let bs = *rng.pick(&[16usize, 32, 64, 128, 256]);
     let nb = 1 + rng.usize_below((1024 / bs).max(1));
@@ -368,6 +407,202 @@ fn tol_case(out: &mut Out, rng: &mut Rng) {
     }
 }
 
+// ---------------------------------------------------------------------------------------------
+// MatMulNBits through the public operator API (single-node ONNX model, `com.microsoft` domain).
+// Request lines reuse the `bq` format with mode `op-float` / `op-int8` (accuracy_level 1 / 4) and
+// `isa=onnx2d` / `onnx1d` (2-D scales, or the legacy 1-D scales that the operator reshapes).
+// ---------------------------------------------------------------------------------------------
+#[path = "../onnx_enc.rs"]
+mod onnx_enc;
+use onnx_enc::{dt, Attr, Graph, Node, Tensor as OT, ValueInfo};
+
+fn enc_attr(name: &str, a: &Attr) -> Vec<u8> {
+    use onnx_enc::{f_i64, f_str};
+    let mut o = Vec::new();
+    f_str(&mut o, 1, name);
+    match a {
+        Attr::Int(v) => {
+            f_i64(&mut o, 3, *v);
+            f_i64(&mut o, 20, 2);
+        }
+        _ => panic!("attribute kind not used by this harness"),
+    }
+    o
+}
+
+fn model_bytes(g: &Graph) -> Vec<u8> {
+    use onnx_enc::{f_bytes, f_i64, f_str};
+    let mut gb = Vec::new();
+    for n in &g.nodes {
+        let mut o = Vec::new();
+        for i in &n.inputs {
+            f_str(&mut o, 1, i);
+        }
+        for i in &n.outputs {
+            f_str(&mut o, 2, i);
+        }
+        f_str(&mut o, 3, &n.name);
+        f_str(&mut o, 4, &n.op_type);
+        for (name, a) in &n.attrs {
+            f_bytes(&mut o, 5, &enc_attr(name, a));
+        }
+        if !n.domain.is_empty() {
+            f_str(&mut o, 7, &n.domain);
+        }
+        f_bytes(&mut gb, 1, &o);
+    }
+    f_str(&mut gb, 2, "g");
+    for t in &g.initializers {
+        f_bytes(&mut gb, 5, &t.encode());
+    }
+    for v in &g.inputs {
+        f_bytes(&mut gb, 11, &v.encode());
+    }
+    for v in &g.outputs {
+        f_bytes(&mut gb, 12, &v.encode());
+    }
+    let mut o = Vec::new();
+    f_i64(&mut o, 1, 8);
+    f_str(&mut o, 2, "rten-verif");
+    f_bytes(&mut o, 7, &gb);
+    for (domain, version) in [("", 21i64), ("com.microsoft", 1)] {
+        let mut ops = Vec::new();
+        f_str(&mut ops, 1, domain);
+        f_i64(&mut ops, 2, version);
+        f_bytes(&mut o, 8, &ops);
+    }
+    o
+}
+
+/// Run MatMulNBits. `lhs` has shape [batch, m, k] (batch = 0: [m, k]). Returns the flat output.
+fn run_matmul_nbits(
+    c: &Case,
+    lhs_f: &[f32],
+    sf: &[f32],
+    accuracy_level: i64,
+    scales_1d: bool,
+    extra_zero_points: bool,
+    lhs_k_override: Option<usize>,
+) -> Result<Vec<f32>, String> {
+    let k = lhs_k_override.unwrap_or(c.k());
+    let mut names = vec!["A", "B", "S"];
+    let mut inits = vec![
+        OT::u8s("B", &[c.n as i64, c.nb as i64, (c.bs / 2) as i64], &c.q),
+        if scales_1d {
+            OT::f32s("S", &[(c.n * c.nb) as i64], sf)
+        } else {
+            OT::f32s("S", &[c.n as i64, c.nb as i64], sf)
+        },
+    ];
+    if extra_zero_points {
+        names.push("Z");
+        inits.push(OT::u8s("Z", &[c.n as i64, ((c.nb + 1) / 2) as i64], &vec![0x88u8; c.n * ((c.nb + 1) / 2)]));
+    }
+    let node = Node::new("MatMulNBits", "op", &names, &["Y"])
+        .domain("com.microsoft")
+        .attr("K", Attr::Int(c.k() as i64))
+        .attr("N", Attr::Int(c.n as i64))
+        .attr("bits", Attr::Int(4))
+        .attr("block_size", Attr::Int(c.bs as i64))
+        .attr("accuracy_level", Attr::Int(accuracy_level));
+    let g = Graph {
+        nodes: vec![node],
+        initializers: inits,
+        inputs: vec![ValueInfo::new("A", dt::FLOAT, None)],
+        outputs: vec![ValueInfo::new("Y", dt::FLOAT, None)],
+        ..Default::default()
+    };
+    let mut opts = rten::ModelOptions::with_all_ops();
+    opts.enable_optimization(false);
+    let model = opts.load(model_bytes(&g)).map_err(|e| format!("load: {e}"))?;
+    let a_shape: Vec<usize> = if c.batch == 0 { vec![c.m, k] } else { vec![c.batch, c.m, k] };
+    let a = rten_tensor::Tensor::from_data(a_shape.as_slice(), lhs_f.to_vec());
+    let aid = model.node_id("A").map_err(|e| format!("node_id: {e}"))?;
+    let yid = model.node_id("Y").map_err(|e| format!("node_id: {e}"))?;
+    let outs = model.run(vec![(aid, a.view().into())], &[yid], None).map_err(|e| format!("run: {e}"))?;
+    match &outs[0] {
+        rten::Value::FloatTensor(t) => Ok(t.iter().copied().collect()),
+        _ => Err("unexpected output type".into()),
+    }
+}
+
+fn op_case(out: &mut Out, c: &Case) {
+    if c.k() == 0 || c.batch == 0 {
+        return;
+    }
+    let want = oracle2(c);
+    let lhs_f: Vec<f32> = c.lhs.iter().map(|&x| x as f32).collect();
+    let sf: Vec<f32> = c.sc2.iter().map(|&x| x as f32 / 2.0).collect();
+    for (mode, level) in [("op-float", 1i64), ("op-int8", 4)] {
+        for (isa, one_d) in [("onnx2d", false), ("onnx1d", true)] {
+            let demand = mode != "op-int8" || c.int8_exact || c.m != 1;
+            let req = format!(
+                "bq mode={mode} isa={isa} bs={} batch={} m={} n={} nb={} lhs={} q={} sc2={}",
+                c.bs,
+                c.batch,
+                c.m,
+                c.n,
+                c.nb,
+                rle(&c.lhs),
+                rle(&c.q),
+                rle(&c.sc2)
+            );
+            let res = hcommon::catch(|| run_matmul_nbits(c, &lhs_f, &sf, level, one_d, false, None));
+            let mut fail = None;
+            let ans = match res {
+                Ok(Ok(v)) => match to_int2(&v) {
+                    Ok(iv) => {
+                        if demand && iv != want {
+                            let p = (0..iv.len().min(want.len())).find(|&i| iv[i] != want[i]).unwrap_or(0);
+                            fail = Some(format!("MatMulNBits {mode} {isa}: out[{p}]={:?} but dequantize-then-multiply gives {:?} (x2)", iv.get(p), want.get(p)));
+                        }
+                        rle(&iv)
+                    }
+                    Err(e) => {
+                        if demand {
+                            fail = Some(format!("MatMulNBits {mode} {isa}: {e} on exact-arithmetic inputs"));
+                            e
+                        } else {
+                            "inexact".to_string()
+                        }
+                    }
+                },
+                Ok(Err(e)) => {
+                    fail = Some(format!("MatMulNBits {mode} {isa} failed on a well-formed model: {e}"));
+                    "err".into()
+                }
+                Err(m) => {
+                    fail = Some(format!("MatMulNBits {mode} {isa} panicked: {m}"));
+                    "panic".into()
+                }
+            };
+            out.bucket(&format!("op_{mode}_{isa}_m{}", c.m.min(2)));
+            out.case(&req, &ans, fail.as_deref(), true);
+        }
+    }
+}
+
+/// Operator-level rejections: a `zero_points` input, and an LHS whose K is not `k_blocks * block_size`.
+fn op_error_cases(out: &mut Out, c: &Case) {
+    if c.k() == 0 || c.batch == 0 {
+        return;
+    }
+    let sf: Vec<f32> = c.sc2.iter().map(|&x| x as f32 / 2.0).collect();
+    for (kind, zp, kover) in [("zero_points", true, None), ("k_plus_1", false, Some(c.k() + 1)), ("k_minus_half_block", false, Some(c.k() - c.bs / 2))] {
+        let k = kover.unwrap_or(c.k());
+        let lhs_f = vec![1.0f32; c.batch * c.m * k];
+        let req = format!("operr kind={kind} bs={} batch={} m={} n={} nb={}", c.bs, c.batch, c.m, c.n, c.nb);
+        let res = hcommon::catch(|| run_matmul_nbits(c, &lhs_f, &sf, 1, false, zp, kover));
+        let (ans, fail) = match res {
+            Ok(Ok(_)) => ("ok".to_string(), Some(format!("MatMulNBits accepted an unsupported request ({kind})"))),
+            Ok(Err(_)) => ("err".to_string(), None),
+            Err(m) => ("panic".to_string(), Some(format!("MatMulNBits panicked instead of returning an error ({kind}): {m}"))),
+        };
+        out.bucket(&format!("operr_{kind}_{ans}"));
+        out.case(&req, &ans, fail.as_deref(), true);
+    }
+}
+
 fn main() {
     let args = hcommon::parse_args();
     hcommon::quiet_panics();
@@ -406,10 +641,21 @@ fn run(args: &Args) {
             }
         }
     }
+    for &(bb, nb, n) in &[(8usize, 2usize, 4usize), (16, 1, 3), (16, 3, 2), (32, 2, 1)] {
+        for (sn, snb) in [(n, nb), (n, nb - 1), (n, nb + 1), (n - 1, nb), (n + 1, nb), (nb, n), (1, 1), (0, 0), (n * nb, 1)] {
+            scales_case(&mut out, bb, nb, n, sn, snb);
+        }
+    }
     let n_exact = if args.thorough { 6000 } else { 450 };
-    for _ in 0..n_exact {
+    for i in 0..n_exact {
         let c = gen_exact(&mut rng);
         exact_case(&mut out, &c);
+        if i % 3 == 0 {
+            op_case(&mut out, &c);
+        }
+        if i % 15 == 0 {
+            op_error_cases(&mut out, &c);
+        }
     }
     let n_tol = if args.thorough { 3000 } else { 250 };
     for _ in 0..n_tol {
